@@ -242,7 +242,7 @@ class Gen:
         yield "rt.fill"
         for _ in range(nops or 6):
             x = r.random()
-            if x < 0.45 and len(alive) < min(5, parts):
+            if x < 0.45 and len(alive) < min(6, parts):
                 rep = yield "c.add nosync"
                 alive.append(total)
                 total += 1
@@ -252,7 +252,7 @@ class Gen:
                 yield "c.stop %d" % v
                 alive.remove(v)
                 stopped.append(v)
-            elif x < 0.9 and stopped and len(alive) < min(5, parts):
+            elif x < 0.9 and stopped and len(alive) < min(6, parts):
                 v = stopped.pop(r.randrange(len(stopped)))
                 yield "c.rejoin %d" % v
                 alive.append(v)
